@@ -1168,7 +1168,7 @@ class MyPyAstVisitor:
                 name = qname.split(".")[-1]
             else:
                 # In this case some types where defined in multiple modules with the same names.
-                for alias_qname in qnames:
+                for alias_qname in sorted(qnames):
                     # We check if the type was defined in the same module
                     type_path = ".".join(alias_qname.split(".")[0:-1])
                     name = alias_qname.split(".")[-1]
@@ -1176,7 +1176,8 @@ class MyPyAstVisitor:
                     if self.mypy_file is None:  # pragma: no cover
                         raise TypeError("Expected mypy_file (module information), got None.")
 
-                    if self.mypy_file.fullname in type_path:
+                    module_qname = self.mypy_file.fullname
+                    if type_path == module_qname or type_path.startswith(f"{module_qname}."):
                         qname = alias_qname
                         break
 
